@@ -119,13 +119,13 @@ where
 
 crate::harnesses! { REG;
     /// quick required | F_13 (Montgomery derive): ALL triples: == iff same integer, cmp / partial_cmp / < / <= are the integer order of the decoded values (not of the Montgomery limbs), transitive, is_zero/is_one iff == ZERO/ONE, equal values hash equally
-    #[unwind(12)]
+    #[unwind(70)]
     fn c19_prime_f13() { prime_order::<DF13>() }
     /// quick required | F_251 (hand-written config): ALL triples: integer order, equality, predicates, hashing
-    #[unwind(12)]
+    #[unwind(70)]
     fn c19_prime_f251() { prime_order::<HF251>() }
     /// quick required | Fp2 over F_7: ALL triples: cmp is the documented lexicographic order (c1 first, then c0), total, antisymmetric, transitive, consistent with ==; predicates; hashing
-    #[unwind(12)]
+    #[unwind(70)]
     fn c19_fp2_order() { quad_order::<F7_2, O7_2>(|o| (o.0[1].0, o.0[0].0)) }
     /// quick required | SW cofactor 4: ALL pairs of points, ALL rescalings: Projective == independent of the representative, Projective == Affine, equal points hash to the same byte stream (different Jacobian coordinates, affine vs projective)
     #[unwind(70)]
